@@ -23,6 +23,7 @@ def main(tier, seed):
     random.Random(seed).shuffle(core)
     items += core[:200 if quick else 6000]
     items += families.generated(seed + 3, 25 if quick else 400, feat={'faults': 0.2}, inputs=2, family='gen3')
+    items += families.generated(seed + 5, 40 if quick else 800, feat={'tt': 0.8, 'faults': 0.1}, inputs=2, family='gentt3')
     items += families.examples(s=120, names={'hello', 'max', 'factor', 'optional_max', 'ouroboros', 'sat', 'mergesort'})
     # unchecked twins of a slice
     unch = []
